@@ -56,7 +56,7 @@ def t5(cx):
     cx.check(len(r) == 1 and norm(r[0].value) == "dtype_dict[dtype.name]", r[0] if r else f, detail="lookup by dtype name", bad_detail="dtype2ctype is not dtype_dict[dtype.name]", sub="dtype_dict")
 
 
-@rule("K1", ["C17"], "kernel arguments: xobjects are passed as address(current storage)+current offset, arrays as a pointer to their first element with the element's C type")
+@rule("K1", ["C17", "C02", "C07"], "kernel arguments: xobjects are passed as address(current storage)+current offset, arrays as a pointer to their first element with the element's C type")
 def k1(cx):
     m = cx.m
     fn = m.func("context_cpu::KernelCpu.to_function_arg")
@@ -165,7 +165,7 @@ def k1(cx):
     cx.check(len(raises) >= 2, fn, construct=f"{len(raises)} refusing arms", detail="unsupported argument kinds raise", bad_detail="an unsupported argument kind no longer raises", sub="refuse")
 
 
-@rule("NC", ["C08", "C17"], "nobody caches native storage or addresses: handles keep (buffer object, offset) only")
+@rule("NC", ["C08", "C17", "C02", "C07"], "nobody caches native storage or addresses: handles keep (buffer object, offset) only")
 def nc(cx):
     m = cx.m
     fn = m.func("context_cpu::KernelCpu.to_function_arg")
